@@ -530,17 +530,46 @@ class Cache:
         # has removed the output files, so check them now
         created_dirs = cache_json['createdDirs']
         if (not isinstance(created_dirs, list) or
-                not all(isinstance(dir_, str) for dir_ in created_dirs)):
+                not all(
+                    Cache._is_valid_filename(dir_) for dir_ in created_dirs)):
+            raise RuntimeError(
+                'Error parsing cache file {:s}'.format(filename))
+
+        # Likewise, FileBuilder.build doesn't use these until after it has
+        # called the build function
+        if (not isinstance(cache_json['funcVersions'], dict) or
+                not isinstance(cache_json['operationVersions'], dict)):
             raise RuntimeError(
                 'Error parsing cache file {:s}'.format(filename))
 
         files = {}
         subbuilds = {}
-        Cache._operations_from_json(
-            cache_json['rootOperations'], files, subbuilds)
+        try:
+            Cache._operations_from_json(
+                cache_json['rootOperations'], files, subbuilds)
+        except TypeError:
+            raise RuntimeError(
+                'Error parsing cache file {:s}'.format(filename))
         return Cache(
             cache_json['buildName'], files, subbuilds, set(created_dirs),
             cache_json['funcVersions'], cache_json['operationVersions'], False)
+
+    @staticmethod
+    def _is_valid_filename(filename):
+        """Return whether ``filename`` is a string we can pass to ``os``.
+
+        This is ``False`` for strings that ``os`` functions reject with
+        a ``ValueError`` rather than an ``OSError``: strings with null
+        characters and strings we can't encode, e.g. due to lone
+        surrogates.
+        """
+        if not isinstance(filename, str) or '\0' in filename:
+            return False
+        try:
+            os.fsencode(filename)
+        except ValueError:
+            return False
+        return True
 
     @staticmethod
     def _create_empty(build_name, func_versions, is_mutable):
@@ -748,6 +777,8 @@ class Cache:
                 subbuilds[subbuild_key] = operation
             return operation
         else:
+            if not isinstance(operation_json['args'], list):
+                raise TypeError('The arguments must be a list')
             return SimpleOperation(
                 type_, operation_json['args'], operation_json['returnValue'],
                 operation_json.get('exceptionType'), True)
